@@ -802,6 +802,12 @@ class Function(Ring):
             else:
                 args.append(fa)
 
+        # when a recorded in-place write is re-evaluated, save the values that
+        # are about to be overwritten now: the reverse sweep restores them
+        if Fout is not None and is_set(Fout.setitem):
+            sl = Fout.setitem[0]
+            Fout.setitem = (sl, operator.getitem(args[0], sl).copy())
+
         # STEP 2: call the function
         # print 'func=',func
         # print 'args=',args
